@@ -1052,6 +1052,14 @@ func CliTargetCases(c *Ctx, fam *report.Family, bin string) {
 			return plan{args: []string{"-t", "dir.rpm/sub.deb/out." + f}, want: filepath.Join(d, "dir.rpm", "sub.deb", "out."+f), extra: []string{"dir.rpm/", "dir.rpm/sub.deb/"}}
 		})
 	}
+	// the extension is what follows the last dot of the base name: another format's extension earlier in the name
+	// (myapp.debug.rpm contains ".deb") decides nothing
+	for _, nf := range [][2]string{{"myapp.debug.rpm", "rpm"}, {"mirror.apk.repo.ipk", "ipk"}, {"x.rpm.deb", "deb"}, {"archive.ipk.apk", "apk"}, {"tools.deb.rpm", "rpm"}, {"a.apk.b.deb", "deb"}} {
+		nf := nf
+		expect("inferred", v, nf[1], func(d string) plan {
+			return plan{args: []string{"-t", nf[0]}, want: filepath.Join(d, nf[0])}
+		})
+	}
 	// observation only: the conventional archlinux extension does not name a packager
 	{
 		dir, _ := fresh(v)
